@@ -68,6 +68,17 @@ CHECKS = {
         design="DESIGN.md 5 (C10)",
         technique="TLA+ spec + TLC exhaustive; spec->code replay of every evaluated state",
     ),
+    "C14": dict(
+        engine="tla-labels",
+        text="LabelConv.tla holds the documented name tables (pinned from docs/en/perception/label.md) and the conversion laws. TLC checks the pinned "
+        "tables are functional and that the merged table is the merged image of the plain one; for both label families x every evaluation task "
+        "(enum and string spelling) x merge on/off every registered / documented / canonical / random name is converted through convert_label and "
+        "convert_name in four case variants, every producible label's canonical name is converted back, merged vs unmerged results and target-list "
+        "resolution (set_target_lists, PerceptionEvaluationConfig.target_labels) are recorded, and TLC validates every event. Exhaustive over names.",
+        note="names registered by the code but not documented are subject to the laws only; documentation drift (stale names in the docs) is not pinned",
+        design="DESIGN.md 5 (C14)",
+        technique="TLA+ spec + TLC (table laws) + code->spec trace validation of every conversion",
+    ),
     "C20": dict(
         engine="tla-enums",
         text="Enums.tla defines Parse(enum, member table, spelling) over byte sequences with the documented case folding (FrameID, label policy) and "
